@@ -2,20 +2,21 @@ package harness
 
 import "testing"
 
-func TestC01(t *testing.T)       { RunProfileTest(t, ProfileC01) }
-func TestC02(t *testing.T)       { RunProfileTest(t, ProfileC02) }
-func TestC06(t *testing.T)       { RunProfileTest(t, ProfileC06) }
-func TestC08(t *testing.T)       { RunProfileTest(t, ProfileC08) }
-func TestC09(t *testing.T)       { RunProfileTest(t, ProfileC09) }
-func TestC11(t *testing.T)       { RunProfileTest(t, ProfileC11) }
-func TestC12(t *testing.T)       { RunProfileTest(t, ProfileC12) }
-func TestC13(t *testing.T)       { RunProfileTest(t, ProfileC13) }
-func TestC15(t *testing.T)       { RunProfileTest(t, ProfileC15) }
-func TestC18(t *testing.T)       { RunProfileTest(t, ProfileC18) }
-func TestC18Params(t *testing.T) { RunProfileTest(t, ProfileC18Params) }
-func TestC04(t *testing.T)       { RunProfileTest(t, ProfileC04) }
-func TestC07Chain(t *testing.T)  { RunProfileTest(t, ProfileC07) }
-func TestC05Chain(t *testing.T)  { RunProfileTest(t, ProfileC05) }
-func TestC03Chain(t *testing.T)  { RunProfileTest(t, ProfileC03) }
-func TestC20(t *testing.T)       { RunProfileTest(t, ProfileC20) }
-func TestC10(t *testing.T)       { RunProfileTest(t, ProfileC10) }
+func TestC01(t *testing.T)        { RunProfileTest(t, ProfileC01) }
+func TestC02(t *testing.T)        { RunProfileTest(t, ProfileC02) }
+func TestC06(t *testing.T)        { RunProfileTest(t, ProfileC06) }
+func TestC08(t *testing.T)        { RunProfileTest(t, ProfileC08) }
+func TestC09(t *testing.T)        { RunProfileTest(t, ProfileC09) }
+func TestC11(t *testing.T)        { RunProfileTest(t, ProfileC11) }
+func TestC12(t *testing.T)        { RunProfileTest(t, ProfileC12) }
+func TestC13(t *testing.T)        { RunProfileTest(t, ProfileC13) }
+func TestC15(t *testing.T)        { RunProfileTest(t, ProfileC15) }
+func TestC18(t *testing.T)        { RunProfileTest(t, ProfileC18) }
+func TestC18Params(t *testing.T)  { RunProfileTest(t, ProfileC18Params) }
+func TestC18Staking(t *testing.T) { RunProfileTest(t, ProfileC18Staking) }
+func TestC04(t *testing.T)        { RunProfileTest(t, ProfileC04) }
+func TestC07Chain(t *testing.T)   { RunProfileTest(t, ProfileC07) }
+func TestC05Chain(t *testing.T)   { RunProfileTest(t, ProfileC05) }
+func TestC03Chain(t *testing.T)   { RunProfileTest(t, ProfileC03) }
+func TestC20(t *testing.T)        { RunProfileTest(t, ProfileC20) }
+func TestC10(t *testing.T)        { RunProfileTest(t, ProfileC10) }
